@@ -398,7 +398,9 @@ var (
 		{"2.23.140.1.2.4", gen.OIDPolDV}, {"2.23.140.1.2", gen.OIDPolOV}, {gen.OIDPolIV, "2.23.140.1.2.9"}, {"2.23.140.1.1.1", gen.OIDPolEV}, {"1.3.6.1.4.1.99999.2", "2.23.140.1.2.1.1", gen.OIDPolDV},
 		{"2.23.140.1.5.1.4", "2.23.140.1.5.1.1"}, {"2.23.140.1.5.5.1", "2.23.140.1.5.2.2"}, {"2.23.140.1.5.1", "2.23.140.1.5.4.3"}, {"2.23.140.1.5.0.0", "1.3.6.1.4.1.99999.2", "2.23.140.1.5.3.1"}, {"2.23.140.1.5.1.1.1", "2.23.140.1.5.1.2"},
 		{gen.OIDPolAny, gen.OIDPolCS}, {gen.OIDPolAny, gen.OIDPolDV}, {gen.OIDPolAny, "2.23.140.1.5.2.1"}}
-	latticeSANs = []string{"none", "email", "email-empty", "smtputf8", "smtputf8-empty", "dns", "email+dns", "upn-othername"}
+	latticeSANs = []string{"none", "email", "email-empty", "smtputf8", "smtputf8-empty", "dns", "email+dns", "upn-othername",
+		// the e-mail indication BEHIND entries that are none: other otherNames, other name kinds, empty ones
+		"upn+smtputf8", "smtputf8+upn", "upn+upn+smtputf8", "dns+uri+dir+email", "email-empty+email", "unknown-othername+dns+smtputf8"}
 )
 
 func latticeSize() int { return 128 * len(latticePolicies) * len(latticeSANs) }
@@ -453,6 +455,24 @@ func latticeCert(k int) (*gen.Spec, scopeFacts, string) {
 		f.emailSAN = true
 	case "upn-othername":
 		gns = []*der.Node{gen.GNOther("1.3.6.1.4.1.311.20.2.3", der.Str(der.TagUTF8, "alice@example.com"))}
+	case "upn+smtputf8":
+		gns = []*der.Node{gen.GNOther("1.3.6.1.4.1.311.20.2.3", der.Str(der.TagUTF8, "alice@corp.example")), gen.GNOther("1.3.6.1.5.5.7.8.9", der.Str(der.TagUTF8, "alice@example.com"))}
+		f.emailSAN = true
+	case "smtputf8+upn":
+		gns = []*der.Node{gen.GNOther("1.3.6.1.5.5.7.8.9", der.Str(der.TagUTF8, "alice@example.com")), gen.GNOther("1.3.6.1.4.1.311.20.2.3", der.Str(der.TagUTF8, "alice@corp.example"))}
+		f.emailSAN = true
+	case "upn+upn+smtputf8":
+		gns = []*der.Node{gen.GNOther("1.3.6.1.4.1.311.20.2.3", der.Str(der.TagUTF8, "a@corp.example")), gen.GNOther("1.3.6.1.4.1.311.20.2.3", der.Str(der.TagUTF8, "b@corp.example")), gen.GNDNS("www.example.com"), gen.GNOther("1.3.6.1.5.5.7.8.9", der.Str(der.TagUTF8, "alice@example.com"))}
+		f.emailSAN = true
+	case "dns+uri+dir+email":
+		gns = []*der.Node{gen.GNDNS("www.example.com"), gen.GNURI("https://www.example.com/"), gen.GNDir(gen.Name(gen.A(gen.OIDCN, "Alice"))), gen.GNIP([]byte{192, 0, 2, 1}), gen.GNEmail("alice@example.com")}
+		f.emailSAN = true
+	case "email-empty+email":
+		gns = []*der.Node{gen.GNEmail(""), gen.GNEmail("alice@example.com")}
+		f.emailSAN = true
+	case "unknown-othername+dns+smtputf8":
+		gns = []*der.Node{gen.GNOther("1.2.3.4.5", der.Str(der.TagUTF8, "x")), gen.GNDNS("www.example.com"), gen.GNOther("1.3.6.1.5.5.7.8.9", der.Str(der.TagUTF8, "alice@example.com"))}
+		f.emailSAN = true
 	}
 	if len(gns) > 0 {
 		spec.Exts = append(spec.Exts, gen.ExtSAN(false, gns...))
